@@ -3,6 +3,7 @@ C08 — NV transpilation preserves program behaviour, not only gates.
 Property theorems only; helper lemmas live in Lemmas/Transpile*.lean.
 -/
 import NetqasmVerif.Lemmas.TranspileSim
+import NetqasmVerif.Lemmas.TranspileExpandSound
 import NetqasmVerif.Gen.NvExpand
 namespace NQ.C08
 open NQ NQ.Tr
@@ -215,6 +216,47 @@ theorem transpile_simulates_final_partial {μ : Type} (M : Sem μ) (cfg : Cfg)
   intro r hb hc'
   rw [hr r hc']; exact h2.nonQ r hb
 
+/-! ### The C07 hypothesis discharged
+
+`MQ A Mc` is the concrete semantics: classical instructions as `Mc` (any semantics with `SemLocal`),
+every vanilla/NV gate instruction applies the operator its mnemonic denotes to the qubits its
+registers name (`QAction`, states up to global phase). The only facts about the quantum action are
+`QLawful` (exact operator identities on a few roles lift to the whole register under an injective
+assignment of qubits; a rotation depends only on its angle). `mov` has no semantics in `MQ`
+(it faults): see `mov_runtime_ids_*` below. -/
+
+/-- **tie**: for both debug and both hardware settings, every template of Gen/NvExpand, read over
+roles, IS the sequence of Gen/NvDecomp for the same gate and placement (the sequences C07's
+operator identities are about), and the class table agrees with the classes `MQ` interprets -/
+theorem templates_eq_nvdecomp : ∀ d h : Bool,
+    AllTies (Gen.cfg d h) = true ∧ ClsTie (Gen.cfg d h) = true := all_ties_gen
+
+/-- **expandSound_of_C07**: `ExpandSound` holds for the concrete semantics and the generated
+expansion table; the facts used are C07's `single_gates_eq`, `cnot_placements_eq`,
+`cphase_placements_eq` (with `electron_returned`: the carbon–carbon targets are gate ⊗ 1 on the
+borrowed electron), the tie above, and `QLawful`. -/
+theorem expandSound_of_C07 {C Q : Type} (A : QAction Q) (hA : QLawful A) (Mc : Sem (C × Q)) (d h : Bool)
+    (hMc : SemLocal Mc (Gen.cfg d h)) : ExpandSound (MQ A Mc) (Gen.cfg d h) :=
+  Tr.expandSound_of_C07 A hA Mc _ hMc (all_ties_gen d h).1 (all_ties_gen d h).2
+
+/-- **transpile_simulates for the generated table, no gate hypothesis** (partial: `QStatic`;
+runs through a `mov` are not covered since `MQ` gives `mov` no semantics). -/
+theorem transpile_simulates_C07_partial {C Q : Type} (A : QAction Q) (hA : QLawful A)
+    (Mc : Sem (C × Q)) (d h : Bool) (hMc : SemLocal Mc (Gen.cfg d h))
+    (S out : List Instr) (hQ : QStatic (Gen.cfg d h) S = true) (ht : transpile (Gen.cfg d h) S = .ok out)
+    (s0 s : St (C × Q)) (pc : Nat) (hrun : Steps (MQ A Mc) (Gen.cfg d h) S (0, s0) (pc, s)) :
+    ∃ cs u, Chunks (Gen.cfg d h) [] [] S cs ∧ indexChanges (Gen.cfg d h) S = some (starts 0 cs) ∧
+      Steps (MQ A Mc) (Gen.cfg d h) (serialise out) (0, s0) (tposS cs pc, u) ∧
+      Rel (Gen.cfg d h) S pc s u :=
+  transpile_simulates_partial (MQ A Mc) (Gen.cfg d h) (expansions_have_no_branch d h).1
+    (expansions_have_no_branch d h).2.1 (expansions_have_no_branch d h).2.2
+    (semLocal_MQ A Mc _ hMc (all_ties_gen d h).2) (expandSound_of_C07 A hA Mc d h hMc) S out hQ ht s0 s pc hrun
+
+/-- `QLawful` is satisfiable (trivially, on a one-point state space; the intended instance is the
+unitary action on state vectors modulo phase) -/
+example : ∃ A : QAction Unit, QLawful A :=
+  ⟨⟨fun _ q => q⟩, ⟨fun _ _ _ _ _ _ _ _ _ => rfl, fun _ _ _ _ _ _ _ _ _ => rfl⟩⟩
+
 /-- the generated configuration satisfies the side conditions on the padding instruction -/
 theorem pad_is_set : ∀ d h : Bool, lineOf (Gen.cfg d h) (Gen.cfg d h).pad = none ∧
     setOf (Gen.cfg d h) (Gen.cfg d h).pad = some (⟨1, 15⟩, 1337) := by
@@ -270,7 +312,7 @@ example (d h : Bool) : ∃ M : Sem Unit, SemLocal M (Gen.cfg d h) ∧ ExpandSoun
       | some (r, v) => some ⟨fun r' => if r' = r then some v else s.regs r', s.mem⟩
       | none => none, fun _ _ => none⟩, ?_, ?_⟩
   rotate_left
-  · intro g info rv used ex s u s' hi hg _ _ _ _ _ he
+  · intro g info rv used ex s u s' hi hg _ _ _ _ _ _ he
     have := (setOf_none_of_gate (expansions_have_no_branch d h).2.1
       (by rw [isGate_eq hi]; exact hg)).1
     simp [this] at he
